@@ -50,8 +50,51 @@ fn brace_group(t: &TokenTree) -> Option<TS> {
     }
 }
 
+/// Leaf positions (depth first, a group counts as its two delimiters around its content) of a
+/// token stream that was parsed from one line of text: (start column, end column) per leaf.
+fn leaf_positions(ts: TS, out: &mut Vec<(usize, usize)>) {
+    for t in ts {
+        match t {
+            TokenTree::Group(g) => {
+                let o = g.span_open();
+                out.push((o.start().column, o.end().column));
+                leaf_positions(g.stream(), out);
+                let c = g.span_close();
+                out.push((c.start().column, c.end().column));
+            }
+            other => {
+                let s = other.span();
+                out.push((s.start().column, s.end().column));
+            }
+        }
+    }
+}
+
+/// Where a diagnostic points: `call` (the macro invocation as a whole), `attr:<first leaf>:<leaves>`
+/// or `item:<first leaf>:<leaves>` (a leaf range of the attribute arguments resp. the item, which
+/// the harness parsed from line 1 resp. line 2 of their texts), `unk` if the span is neither.
+fn locus(start: proc_macro2::Span, end: proc_macro2::Span, attr: &[(usize, usize)], item: &[(usize, usize)]) -> String {
+    let (s, e) = (start.start(), end.end());
+    if s == start.end() || e == end.start() {
+        return "call".into();
+    }
+    let (tag, leaves) = match (s.line, e.line) {
+        (1, 1) => ("attr", attr),
+        (2, 2) => ("item", item),
+        _ => return "unk".into(),
+    };
+    let a = leaves.iter().position(|l| l.0 == s.column);
+    let b = leaves.iter().position(|l| l.1 == e.column);
+    match (a, b) {
+        (Some(a), Some(b)) if a <= b => format!("{}:{}:{}", tag, a, b - a + 1),
+        _ => "unk".into(),
+    }
+}
+
 /// `::core::compile_error!{ "msg" }` repeated: the macro reported through the diagnostic channel.
-fn compile_errors(out: &[TokenTree]) -> Option<Vec<String>> {
+/// Each message comes with the place it points at (syn puts the start of the error's span on the
+/// path tokens and its end on the braces).
+fn compile_errors(out: &[TokenTree], attr: &[(usize, usize)], item: &[(usize, usize)]) -> Option<Vec<(String, String)>> {
     let mut msgs = vec![];
     let mut i = 0;
     if out.is_empty() {
@@ -78,7 +121,8 @@ fn compile_errors(out: &[TokenTree]) -> Option<Vec<String>> {
             return None;
         }
         let lit: syn::LitStr = syn::parse2(collect(&inner)).ok()?;
-        msgs.push(lit.value());
+        let at = locus(out[i].span(), out[i + pat.len()].span(), attr, item);
+        msgs.push((lit.value(), at));
         i += pat.len() + 1;
     }
     Some(msgs)
@@ -368,10 +412,15 @@ fn process_one(line: &str) -> String {
         Ok(t) => t,
         Err(_) => return format!("[lexerr n:{} ]", id),
     };
-    let item: TS = match item_text.parse() {
+    // the item is lexed from the second line of its text, so that a span tells which of the two
+    // inputs it belongs to (`locus`)
+    let item: TS = match format!("\n{}", item_text).parse() {
         Ok(t) => t,
         Err(_) => return format!("[lexerr n:{} ]", id),
     };
+    let (mut attr_leaves, mut item_leaves) = (vec![], vec![]);
+    leaf_positions(attr.clone(), &mut attr_leaves);
+    leaf_positions(item.clone(), &mut item_leaves);
     let (kind, item_enc) = match wire::encode_item(item.clone()) {
         Ok(enc) => {
             let kind = enc[1..].split(' ').next().unwrap_or("").to_string();
@@ -387,8 +436,14 @@ fn process_one(line: &str) -> String {
         Err(msg) => wire::node("panic", &[wire::text(&msg)]),
         Ok(out) => {
             let out_trees = trees(out.clone());
-            match compile_errors(&out_trees) {
-                Some(msgs) => wire::node("diag", &[wire::list(msgs.iter().map(|m| wire::text(m)))]),
+            match compile_errors(&out_trees, &attr_leaves, &item_leaves) {
+                Some(msgs) => wire::node(
+                    "diag",
+                    &[
+                        wire::list(msgs.iter().map(|m| wire::text(&m.0))),
+                        wire::list(msgs.iter().map(|m| wire::text(&m.1))),
+                    ],
+                ),
                 None => wire::node(
                     "ok",
                     &[wire::toks(out), reparse(&kind, &input_trees, &out_trees)],
